@@ -260,7 +260,11 @@ func (p *c07) Init(tier string, seed int64) {
 	p.nRand = p.pick(30000, 400000)
 }
 
-func (p *c07) N() int { return p.nRand }
+func (p *c07) N() int { return p.nRand + c07Rec }
+
+// c07Rec terminating recursive macros (shared with C11): each activation sees its own parameters again after
+// the inner call has ended.
+const c07Rec = 30
 
 func (p *c07) build(i int) (*Program, *c07gen) {
 	r := gen.Rng(p.seed, "c07", i)
@@ -291,6 +295,12 @@ func (p *c07) build(i int) (*Program, *c07gen) {
 }
 
 func (p *c07) Describe(i int) interface{} {
+	if i >= p.nRand {
+		prog, sig := (&c11{}).buildRec(i - p.nRand)
+		d := prog.describe()
+		d["case"] = sig
+		return d
+	}
 	prog, g := p.build(i)
 	d := prog.describe()
 	d["statements"] = strings.Join(g.sig, " ")
@@ -298,6 +308,12 @@ func (p *c07) Describe(i int) interface{} {
 }
 
 func (p *c07) Run(i int) (res fw.Result) {
+	if i >= p.nRand {
+		prog, sig := (&c11{}).buildRec(i - p.nRand)
+		modelCase(&res, "c07:"+sig, prog, gen.Canon{}, false)
+		res.UniqueNT = 1
+		return
+	}
 	prog, g := p.build(i)
 	sig := strings.Join(g.sig, " ")
 	lib, _, ok := modelCase(&res, fmt.Sprintf("c07:%d:%s", i, sig), prog, gen.Canon{}, false)
